@@ -562,7 +562,7 @@ class Formatter:
         acc.append(join_keyword.upper())
         acc.append(self.dispatch(json[join_keyword], precedence["join"]))
 
-        if json.get("on"):
+        if json.get("on") is not None:
             acc.append("ON")
             acc.append(self.dispatch(json["on"]))
         if json.get("using"):
